@@ -10,7 +10,7 @@ PROOF_FILES = [f for f in ['proofs/MetaProofs.v'] if os.path.exists(os.path.join
 
 
 def main(tier, seed):
-    return icheck.run(PROP, tier, seed, genchart.Profile(p_time_guard=0.4, p_contract=0.3, p_orth=0.35, p_cross_region=0.5), ifam.ScenarioSpec(p_clock=0.35, p_queue=0.3, p_bits=0.25, p_fail_bit=0.4), icheck.interest_c13, PROOF_FILES, assumptions=['integer clock values; float rounding not modelled', 'C13 quantifies over EVERY statechart: charts with transitions crossing between sibling regions (outside DESIGN.md section 2) are generated too'])
+    return icheck.run(PROP, tier, seed, genchart.Profile(p_time_guard=0.4, p_contract=0.3, p_orth=0.35, p_cross_region=0.5), ifam.ScenarioSpec(p_clock=0.35, p_queue=0.3, p_bits=0.25, p_fail_bit=0.4, twin=0.3, clock_offset=0.1), icheck.interest_c13, PROOF_FILES, assumptions=['integer clock values; float rounding not modelled', 'C13 quantifies over EVERY statechart: charts with transitions crossing between sibling regions (outside DESIGN.md section 2) are generated too'])
 
 
 replay = icheck.replay
